@@ -147,8 +147,7 @@ example : (merge (⟨-1, 5, 2, false, none, .float⟩ : Attrs Int)
 /-- **Chains / nested classes, any sign.**  Absorbing, with sign `s`, an alias that already carries
     the merged attributes of its own aliases `ms` gives the same bounds as absorbing all of them
     directly with multiplied signs. -/
-theorem nested_bounds (h : NegAnti α) (c g : Attrs α) (s : Bool) (ms : List (Entry α))
-    (hms : ∀ m ∈ ms, m.oldMulti = false) (x : α) :
+theorem nested_bounds (h : NegAnti α) (c g : Attrs α) (s : Bool) (ms : List (Entry α)) (x : α) :
     inBox (absorb c s (merge g ms)) x ↔
       inBox (merge c (fresh s g :: ms.map (compose s))) x := by
   rw [inBox_absorb_iff h, inBox_merge_iff h, inBox_merge_iff h]
@@ -158,31 +157,32 @@ theorem nested_bounds (h : NegAnti α) (c g : Attrs α) (s : Bool) (ms : List (E
     rcases List.mem_cons.1 he with rfl | he
     · exact hg
     · obtain ⟨m, hm', rfl⟩ := List.mem_map.1 he
-      have := hm m hm' (by simp [Entry.skipped, hms m hm'])
+      have := hm m hm' (by simpa [compose, Entry.skipped] using hs)
       rw [sgn_sgn] at this
       exact this
   · rintro ⟨hc, hall⟩
     refine ⟨hc, hall (fresh s g) (by simp) rfl, fun m hm hs => ?_⟩
     have := hall (compose s m) (List.mem_cons_of_mem _ (List.mem_map_of_mem hm))
-      (by simp [compose, Entry.skipped, hms m hm])
+      (by simpa [compose, Entry.skipped] using hs)
     rw [sgn_sgn]
     exact this
 
 example : inBox (absorb (⟨-9, 9, 0, false, none, .float⟩ : Attrs Int) true
-    (merge ⟨-3, 4, 0, false, none, .float⟩ [fresh true ⟨0, 2, 0, false, none, .float⟩])) 1 ∧
-    (∀ m ∈ [fresh true (⟨0, 2, 0, false, none, .float⟩ : Attrs Int)], m.oldMulti = false) := by decide
+    (merge ⟨-3, 4, 0, false, none, .float⟩ [fresh true ⟨0, 2, 0, false, none, .float⟩])) 1 := by decide
 
-/-- **Two passes equal one, for a former canonical that enters positively.**  In a later pass
-    the former canonical `g` of an earlier class (carrying `merge g ms`) is absorbed and its old
-    aliases are skipped; the resulting bounds, nominal and fixed are those of merging `g` and all
-    of `ms` directly. -/
-theorem two_pass_equals_flat (h : NegAnti α) (c g : Attrs α) (ms es₁ es₂ : List (Entry α)) (x : α) :
-    let late : Entry α := ⟨false, true, true, merge g ms⟩
+/-- **Two passes equal one.**  In a later pass the former canonical `g` of an earlier class
+    (carrying `merge g ms`, found by the lookup in the old canonical variables) is absorbed with its
+    sign `s` and its old aliases are skipped; the resulting bounds, nominal and fixed are those of
+    merging `g` and all of `ms` directly, signs multiplied. -/
+theorem two_pass_equals_flat (h : NegAnti α) (c g : Attrs α) (s : Bool) (ms es₁ es₂ : List (Entry α)) (x : α) :
+    let late : Entry α := ⟨s, true, true, merge g ms⟩
+    let flat := es₁ ++ fresh s g :: (ms.map (compose s) ++ es₂)
     late.skipped = false ∧
-    (inBox (merge c (es₁ ++ late :: es₂)) x ↔ inBox (merge c (es₁ ++ fresh false g :: (ms ++ es₂))) x) ∧
-    ((merge c (es₁ ++ late :: es₂)).nominal = (merge c (es₁ ++ fresh false g :: (ms ++ es₂))).nominal) ∧
-    ((merge c (es₁ ++ late :: es₂)).fixed = (merge c (es₁ ++ fresh false g :: (ms ++ es₂))).fixed) := by
-  intro late
+    (inBox (merge c (es₁ ++ late :: es₂)) x ↔ inBox (merge c flat) x) ∧
+    ((merge c (es₁ ++ late :: es₂)).nominal = (merge c flat).nominal) ∧
+    ((merge c (es₁ ++ late :: es₂)).fixed = (merge c flat).fixed) := by
+  intro late flat
+  have hsk : ∀ m : Entry α, (compose s m).skipped = m.skipped := fun m => rfl
   refine ⟨rfl, ?_, ?_, ?_⟩
   · rw [inBox_merge_iff h, inBox_merge_iff h]
     constructor
@@ -194,32 +194,34 @@ theorem two_pass_equals_flat (h : NegAnti α) (c g : Attrs α) (ms es₁ es₂ :
       · have := hall late (by simp) rfl
         exact ((inBox_merge_iff h g ms _).1 this).1
       rcases List.mem_append.1 he with he | he
-      · have := hall late (by simp) rfl
-        have := ((inBox_merge_iff h g ms _).1 this).2 e he hs
+      · obtain ⟨m, hm, rfl⟩ := List.mem_map.1 he
+        have := hall late (by simp) rfl
+        have := ((inBox_merge_iff h g ms _).1 this).2 m hm (by rw [← hsk m]; exact hs)
         rw [sgn_sgn] at this
-        simpa [late] using this
+        exact this
       · exact hall e (by simp [he]) hs
     · rintro ⟨hc, hall⟩
       refine ⟨hc, fun e he hs => ?_⟩
       rcases List.mem_append.1 he with he | he
-      · exact hall e (List.mem_append_left _ he) hs
+      · exact hall e (by simp [flat, he]) hs
       rcases List.mem_cons.1 he with rfl | he
-      · refine (inBox_merge_iff h g ms _).2 ⟨hall (fresh false g) (by simp) rfl, fun m hm hs' => ?_⟩
-        have := hall m (by simp [hm]) hs'
+      · refine (inBox_merge_iff h g ms _).2 ⟨hall (fresh s g) (by simp [flat]) rfl, fun m hm hs' => ?_⟩
+        have := hall (compose s m) (List.mem_append_right _ (List.mem_cons_of_mem _ (List.mem_append_left _ (List.mem_map_of_mem hm)))) (by rw [hsk m]; exact hs')
         rw [sgn_sgn]
-        simpa [late] using this
-      · exact hall e (by simp [he]) hs
+        exact this
+      · exact hall e (by simp [flat, he]) hs
   · apply le_antisymm
     · rw [merge_nominal_le_iff]
-      have := (merge_nominal_le_iff c (es₁ ++ fresh false g :: (ms ++ es₂)) _).1 le_rfl
+      have := (merge_nominal_le_iff c flat _).1 le_rfl
       refine ⟨this.1, fun e he hs => ?_⟩
       rcases List.mem_append.1 he with he | he
-      · exact this.2 e (List.mem_append_left _ he) hs
+      · exact this.2 e (by simp [flat, he]) hs
       rcases List.mem_cons.1 he with rfl | he
       · show (merge g ms).nominal ≤ _
         rw [merge_nominal_le_iff]
-        exact ⟨this.2 (fresh false g) (by simp) rfl, fun m hm hs' => this.2 m (by simp [hm]) hs'⟩
-      · exact this.2 e (by simp [he]) hs
+        refine ⟨this.2 (fresh s g) (by simp [flat]) rfl, fun m hm hs' => ?_⟩
+        exact this.2 (compose s m) (List.mem_append_right _ (List.mem_cons_of_mem _ (List.mem_append_left _ (List.mem_map_of_mem hm)))) (by rw [hsk m]; exact hs')
+      · exact this.2 e (by simp [flat, he]) hs
     · rw [merge_nominal_le_iff]
       have := (merge_nominal_le_iff c (es₁ ++ late :: es₂) _).1 le_rfl
       have hl := (merge_nominal_le_iff g ms _).1 (this.2 late (by simp) rfl)
@@ -229,26 +231,31 @@ theorem two_pass_equals_flat (h : NegAnti α) (c g : Attrs α) (ms es₁ es₂ :
       rcases List.mem_cons.1 he with rfl | he
       · exact hl.1
       rcases List.mem_append.1 he with he | he
-      · exact hl.2 e he hs
+      · obtain ⟨m, hm, rfl⟩ := List.mem_map.1 he
+        exact hl.2 m hm (by rw [← hsk m]; exact hs)
       · exact this.2 e (by simp [he]) hs
   · rw [merge_fixed_eq, merge_fixed_eq]
     have hl : late.skipped = false := rfl
-    simp only [List.any_append, List.any_cons, hl, Bool.not_false, Bool.true_and]
+    have : ((fun e : Entry α => !e.skipped && e.attrs.fixed) ∘ compose s) = (fun e : Entry α => !e.skipped && e.attrs.fixed) := by
+      funext m; rfl
+    simp only [flat, List.any_append, List.any_cons, hl, Bool.not_false, Bool.true_and, List.any_map, this]
     show (c.fixed || (_ || ((merge g ms).fixed || _))) = _
     rw [merge_fixed_eq]
     simp [fresh, Entry.skipped, Bool.or_assoc]
 
 example : (merge (⟨-9, 9, 0, false, none, .float⟩ : Attrs Int)
-    [⟨false, true, true, merge ⟨-3, 4, 2, false, none, .float⟩ [fresh true ⟨0, 2, 7, true, none, .float⟩]⟩,
-     ⟨true, true, false, ⟨0, 2, 7, true, none, .float⟩⟩]).nominal = 7 := by decide
+    [⟨true, true, true, merge ⟨-3, 4, 2, false, none, .float⟩ [fresh true ⟨0, 2, 7, true, none, .float⟩]⟩,
+     ⟨false, true, false, ⟨0, 2, 7, true, none, .float⟩⟩]).max = 2 := by decide
 
-/-- **The skip test reads the signed name.**  A former canonical that enters the new class with a
-    negative sign is skipped like an already handled alias: whatever it carries is ignored (this is
-    the hypothesis `two_pass_equals_flat` cannot do without; see finding C16-F2). -/
-theorem negative_former_canonical_skipped (c a : Attrs α) (es : List (Entry α)) :
-    merge c (⟨true, true, true, a⟩ :: es) = merge c es := rfl
+/-- **A former canonical the lookup does not find is ignored.**  If the test
+    `alias in old_alias_relation.canonical_variables` fails for the canonical of an earlier class —
+    as it does in the current code for every *negative* alias, whose signed name is looked up among
+    unsigned names (finding C16-F2) — the entry is skipped like an already handled alias and whatever
+    it carries is lost: `two_pass_equals_flat` cannot do without `inCanon = true`. -/
+theorem former_canonical_not_found_is_ignored (c a : Attrs α) (s : Bool) (es : List (Entry α)) :
+    merge c (⟨s, true, false, a⟩ :: es) = merge c es := rfl
 
-example : (merge (⟨-9, 9, 0, false, none, .float⟩ : Attrs Int) [⟨true, true, true, ⟨-1, 1, 5, true, some 2, .float⟩⟩]).max = 9 := by
+example : (merge (⟨-9, 9, 0, false, none, .float⟩ : Attrs Int) [⟨true, true, false, ⟨-1, 1, 5, true, some 2, .float⟩⟩]).max = 9 := by
   decide
 
 end
